@@ -279,6 +279,7 @@ class SymWalker:
                 state["assumed"].extend(walker.detail.get(text) or [text])
 
         ex = Explorer(atom_truth, on_stmt, on_branch=on_branch, expand_loop=expand, max_paths=512)
+        ex.strict_loops = not getattr(self, "lenient_loops", False)
         paths = ex.explore(fi.node.body, {"env": dict(env0), "ret": None, "assumed": []})
         out = []
         self.last_assumed = []
@@ -494,6 +495,7 @@ class RowWalker(SymWalker):
             return isinstance(st, ast.For) and walker._bind(st, state["env"]) is not None
 
         ex = Explorer(atom_truth, on_stmt, expand_loop=expand, max_paths=512)
+        ex.strict_loops = not getattr(self, "lenient_loops", False)
         paths = ex.explore(fi.node.body, {"env": {}, "ret": None, "entries": [], "in_row": False})
         rows, plain = [], []
         for state, term in paths:
